@@ -148,56 +148,61 @@ example : prettyDiff (unescape (escape [45, 45, 45])) (unescape (escape [47, 45,
 
 /-! ## 5. colour mode -/
 
-/-- exact description of the verdict, any colour setting, any diffmatchpatch behaviour -/
-theorem prettyDiffNonEmpty_eq (colour : Bool) (dmp : Text → Text → Bool) (e r : Text) :
-    prettyDiffNonEmpty colour dmp e r = true ↔
-      e ≠ r ∧ (shouldPrintHighlights colour e r = true → dmp e r = false) := by
+/-- exact description of the verdict, any colour setting, any diffmatchpatch behaviour, with or
+without the fall-back to line rows -/
+theorem prettyDiffNonEmpty_eq (colour fb : Bool) (dmp : Text → Text → Bool) (e r : Text) :
+    prettyDiffNonEmpty colour fb dmp e r = true ↔
+      e ≠ r ∧ (shouldPrintHighlights colour e r = true → fb = false → dmp e r = false) := by
   unfold prettyDiffNonEmpty
   by_cases h : e = r
   · simp [h]
   · by_cases hs : shouldPrintHighlights colour e r = true
-    · simp [h, hs]
+    · cases fb <;> simp [h, hs, getUnifiedDiff_text_ne_nil h]
     · simp [h, hs, getUnifiedDiff_text_ne_nil h]
 
 /-- NO_COLOR: a report is printed iff the texts differ, whatever diffmatchpatch would say -/
-theorem prettyDiffNonEmpty_iff (dmp : Text → Text → Bool) (e r : Text) :
-    prettyDiffNonEmpty false dmp e r = true ↔ e ≠ r := by
+theorem prettyDiffNonEmpty_iff (fb : Bool) (dmp : Text → Text → Bool) (e r : Text) :
+    prettyDiffNonEmpty false fb dmp e r = true ↔ e ≠ r := by
   rw [prettyDiffNonEmpty_eq]
   simp [shouldPrintHighlights]
 
-/-- colours on: a report is printed iff the texts differ, PROVIDED diffmatchpatch never
-returns a single Equal chunk for two different texts -/
+/-- with the fall-back to line rows, colours on or off, ANY diffmatchpatch: a report is printed
+iff the texts differ -/
+theorem prettyDiffNonEmpty_fallback (colour : Bool) (dmp : Text → Text → Bool) (e r : Text) :
+    prettyDiffNonEmpty colour true dmp e r = true ↔ e ≠ r := by
+  rw [prettyDiffNonEmpty_eq]
+  simp
+
+/-- **the current source** (fall-back facts regenerated from snaps/diff.go on every run): the
+report is non-empty iff the texts differ, in colour mode too, for every behaviour of
+diffmatchpatch.  If the fall-back is removed from the source this theorem no longer checks. -/
+theorem colour_mode_reports_now (colour : Bool) (dmp : Text → Text → Bool) (e r : Text) :
+    prettyDiffNonEmptyNow colour dmp e r = true ↔ e ≠ r := by
+  have hfb : (Generated.prettyDiffFallsBack && Generated.unifiedDiffFallsBack) = true := by decide
+  unfold prettyDiffNonEmptyNow
+  rw [hfb]
+  exact prettyDiffNonEmpty_fallback colour dmp e r
+
+/-- without the fall-back: a report is printed iff the texts differ, PROVIDED diffmatchpatch
+never returns a single Equal chunk for two different texts -/
 theorem prettyDiffNonEmpty_colour_iff (dmp : Text → Text → Bool)
     (hdmp : ∀ x y, x ≠ y → dmp x y = false) (e r : Text) :
-    prettyDiffNonEmpty true dmp e r = true ↔ e ≠ r := by
+    prettyDiffNonEmpty true false dmp e r = true ↔ e ≠ r := by
   rw [prettyDiffNonEmpty_eq]
-  exact ⟨fun h => h.1, fun h => ⟨h, fun _ => hdmp e r h⟩⟩
+  exact ⟨fun h => h.1, fun h => ⟨h, fun _ _ => hdmp e r h⟩⟩
 
-/-- D3 (silent pass): if diffmatchpatch does report a single Equal chunk for some non-empty
-single-line pair `x ≠ y`, go-snaps prints nothing although the texts differ -/
+/-- D3 (silent pass, before the repair): without the fall-back, if diffmatchpatch reports a
+single Equal chunk for some non-empty single-line pair `x ≠ y`, nothing is printed -/
 theorem silent_pass_of_dmp (dmp : Text → Text → Bool) (x y : Text)
     (hx : x ≠ []) (hy : y ≠ []) (sx : isSingleline x = true) (sy : isSingleline y = true)
-    (hd : dmp x y = true) : prettyDiffNonEmpty true dmp x y = false := by
+    (hd : dmp x y = true) : prettyDiffNonEmpty true false dmp x y = false := by
   unfold prettyDiffNonEmpty
   split
   · rfl
   · simp [shouldPrintHighlights, hx, hy, sx, sy, hd]
 
-/-- the hypothesis on `dmp` in `prettyDiffNonEmpty_colour_iff` is also necessary on
-non-empty single-line pairs -/
-theorem colour_iff_needs_dmp (dmp : Text → Text → Bool)
-    (h : ∀ e r, prettyDiffNonEmpty true dmp e r = true ↔ e ≠ r) (x y : Text) (hne : x ≠ y)
-    (hx : x ≠ []) (hy : y ≠ []) (sx : isSingleline x = true) (sy : isSingleline y = true) :
-    dmp x y = false := by
-  cases hd : dmp x y with
-  | false => rfl
-  | true =>
-    have := silent_pass_of_dmp dmp x y hx hy sx sy hd
-    rw [(h x y).mpr hne] at this
-    exact absurd this (by decide)
-
-example : prettyDiffNonEmpty true (fun _ _ => true) [97] [98] = false ∧
-    prettyDiffNonEmpty false (fun _ _ => true) [97] [98] = true ∧
-    prettyDiffNonEmpty true (fun _ _ => true) [97, 10, 120] [98] = true := by decide +kernel
+example : prettyDiffNonEmpty true false (fun _ _ => true) [97] [98] = false ∧
+    prettyDiffNonEmpty true true (fun _ _ => true) [97] [98] = true ∧
+    prettyDiffNonEmpty false false (fun _ _ => true) [97] [98] = true := by decide +kernel
 
 end GoSnaps.C02
